@@ -3,7 +3,8 @@ package carreader
 // Verification harness for C12 (injected with `go test -overlay`; not part of the repository).
 // Mutated CARv1 streams (written with go-car's own header and section writers) through carreader.New + the
 // NextNode / NextInfo / NextNodeBytes loops, and single sections through ReadNodeInfoWithData.
-// Oracle: no panic, allocation <= 32 MiB (go-car's section cap) + 16*len + 1 MiB, every loop ends within
+// Oracle: no panic, allocation <= 80 MiB (go-car's 32 MiB section cap + go-cid's 32 MiB digest cap, both allocated before
+// the bytes are read, + slice growth) + 16*len, every loop ends within
 // len+2 iterations. Correspondence: class and consumed bytes of ReadNodeInfoWithData on one section against
 // YF.C12_Parsers.car_section (the CID length is what go-cid's CidFromReader makes of the same bytes).
 
@@ -226,12 +227,12 @@ func vc12CoqCase(in *c12h.Input, r *c12h.Result) (string, bool) {
 	return fmt.Sprintf("CCar %s %s %s %s", vh.CoqBytes(in.Data), cl, vh.CoqN(cls), vh.CoqN(used)), true
 }
 
-func TestVerif_C12(t *testing.T) {
-	c12h.Run(t, &c12h.Part{
-		Name: "carreader",
-		Rule: "carreader.New + NextNode/NextInfo/NextNodeBytes loops and ReadNodeInfoWithData on mutated CARv1 streams: no panic, allocation <= 32MiB+16*len+1MiB, loops end within len+2 sections; section class and consumed bytes = Coq model",
+func vc12Part() *c12h.Part {
+	return &c12h.Part{
+		Name:  "carreader",
+		Rule:  "carreader.New + NextNode/NextInfo/NextNodeBytes loops and ReadNodeInfoWithData on mutated CARv1 streams: no panic, allocation <= 80MiB (32 MiB section cap of go-car + 32 MiB digest cap of go-cid + growth) + 16*len, loops end within len+2 sections; section class and consumed bytes = Coq model",
 		Seeds: vc12Seeds, Gen: vc12Gen, Exec: vc12Exec,
-		Budget: func(in *c12h.Input) uint64 { return 32<<20 + uint64(16*len(in.Data)) + 1<<20 },
+		Budget: func(in *c12h.Input) uint64 { return 80<<20 + uint64(16*len(in.Data)) },
 		Witnesses: func(seeds []c12h.Seed) map[string]c12h.Input {
 			_, secs := vc12Secs(&seeds[0])
 			return map[string]c12h.Input{"g_car_section": {Entry: "nextnode", Label: "witness", Data: vc12Rewrite(&seeds[0], 0, 2, secs[0].dataLen)}}
@@ -239,5 +240,16 @@ func TestVerif_C12(t *testing.T) {
 		CoqImports: []string{"YF.C12_Check"}, CoqType: "car_case",
 		CoqChecker: func(f map[string]bool) string { return "(check_car " + vh.CoqBool(f["g_car_section"]) + ")" },
 		CoqCase:    vc12CoqCase, MaxCoq: 500,
-	})
+		Fuzz: vc12Fuzz,
+	}
+}
+
+func TestVerif_C12(t *testing.T) { c12h.Run(t, vc12Part()) }
+
+// native fuzz target (thorough tier; run by c12h.Run from an instrumented copy of the test binary)
+func FuzzVerifC12(f *testing.F) { c12h.FuzzBody(f, vc12Part()) }
+
+func vc12Fuzz(data []byte, sel uint64, seeds []c12h.Seed) *c12h.Input {
+	entries := []string{"nextnode", "nextinfo", "nextbytes", "section"}
+	return &c12h.Input{Entry: entries[sel%4], Label: "fuzz", Data: data}
 }
